@@ -237,7 +237,7 @@ const (
 
 // World is one simulated router with its sessions.
 type World struct {
-	wss    *router.WebsocketServer // the one websocket server of this world (shared serializers, like the real one)
+	wss    []*router.WebsocketServer // this world's websocket servers, one per distinct settings (shared serializers, like the real one)
 	S      *simrt.Sched
 	R      router.Router
 	Log    *ringLog
@@ -262,6 +262,15 @@ func NewWorld(s *simrt.Sched, cfg *router.Config) (*World, error) {
 		return nil, err
 	}
 	w.R = r
+	// websocket servers are set up before they serve: one per usual setting, made here,
+	// before any client goroutine exists (see wsServerFor)
+	for _, q := range []int{1, 2, 3, 4, 8, 64, 256, 512, 4096} {
+		for _, ka := range []time.Duration{0, 9 * time.Second} {
+			srv := router.NewWebsocketServer(attachTap{r})
+			srv.OutQueueSize, srv.KeepAlive = q, ka
+			w.wss = append(w.wss, srv)
+		}
+	}
 	return w, nil
 }
 
